@@ -59,6 +59,9 @@ CHECKS = {
  "C06": dict(engine="simrt+simnet+modelredis", cat="exploration", ref="DESIGN.md 5/C06",
    text="Seeded search over keyspaces built around the configured prefixes (prefixes/extensions, hash tags, checkpoint keys, the key 'lua'), database numbers that are string-prefixes of one another, slot lists and filter.lua, each pushed through full sync, incremental sync, restore mode and rump in simulated runs; per path and key the observed copy decision must equal the statement's predicate.",
    tech="deterministic simulation of the four data paths against models; statement-derived filter predicate as oracle"),
+ "C19": dict(engine="simrt+simnet+modelredis", cat="exploration", ref="DESIGN.md 5/C19",
+   text="Cross-cutting monitor: fresh random sentinel passwords per run, seven run paths (sync incl. restart after a target cut and reconnect after a source cut, restore, rump, checkpoint load, supervisor, incl. AUTH failures) at four log levels; every captured log byte and status document is searched for the sentinels in raw/hex/base64 form.",
+   tech="deterministic simulation of the run paths with injected resets/restarts; secret-sentinel scan over captured logs and status documents"),
  "C18": dict(engine="simrt", cat="exploration", ref="DESIGN.md 5/C18",
    text="Seeded search over writer/reader/closer scripts and lock-granularity interleavings of the real backlog ring against an absolute-offset log model (interval semantics for in-flight writes), with lost-wake-up analysis at quiescence.",
    tech="deterministic simulation: tape-driven baton scheduler over instrumented locks/conds + absolute-offset log model"),
